@@ -38,6 +38,29 @@ def parseCfgRec (j : Json) : Except String CfgRec := do
   let secs ← (← getArr j "sections").mapM fun s => do return ((← getStr s "name"), (← getStrs s "keys"))
   return ⟨secs⟩
 
+/-- a parsed definition: {"mod":bool,"name":str,"params":[rat],"args":[inst],"start":{"rt":str,"start":rat}|null,"next":inst|null} -/
+partial def parseInst (j : Json) : Except String PInst := do
+  let args ← (← getArr j "args").mapM parseInst
+  let params ← (← getArr j "params").mapM fun x => do
+    match x with
+    | Json.str t => parseRat t
+    | _ => throw "parameter must be a rational string"
+  let st ← match j.getObjVal? "start" with
+    | .ok Json.null => pure none
+    | .ok o => do pure (some ({ range_type := ← getStr o "rt", start := ← getRat o "start" } : StartRec))
+    | .error _ => pure none
+  let nx ← match j.getObjVal? "next" with
+    | .ok Json.null => pure none
+    | .ok o => do pure (some (← parseInst o))
+    | .error _ => pure none
+  return { isModifier := ← getBool j "mod", name := ← getStr j "name", parameters := params, potential_forms := args, start := st, next := nx }
+
+/-- names are a letter followed by the node's number -/
+def nodeId (name : String) : Nat := (String.ofList (name.toList.drop 1)).toNat?.getD 0
+
+def defnCode (t : MRDefn) : Nat :=
+  (t.pform.id * 100 + (match t.start with | none => 0 | some q => q.num.toNat + 1)) * 4 + (if t.range_type == ">" then 1 else if t.range_type == ">=" then 2 else 3)
+
 def handleGen (op : String) (j : Json) : Except String Json := do
   match op with
   | "pair_species" =>
@@ -93,6 +116,33 @@ def handleGen (op : String) (j : Json) : Except String Json := do
     let n ← getNat j "n"
     let forms : List (String × FormObj) := (List.range n).map fun i => (toString i, ⟨i⟩)
     return arrJ ((register_with_each_other (fun f => ⟨f.id⟩) forms []).map fun p => arrJ [natJ p.1.id, natJ p.2.id])
+  | "read_from_parser" =>
+    -- Configuration.read_from_parser: factory table (names, in order; factories named in `failing` raise), the parser's target or null
+    let names ← getStrs j "factories"
+    let failing ← getStrs j "failing"
+    let facs : List (String × FactoryObj) := (List.range names.length).zip names |>.map fun p => (p.2, ⟨p.1⟩)
+    let tgt := match j.getObjVal? "target" with | .ok (Json.str t) => some t | _ => none
+    let create := fun (f : FactoryObj) (_ : CpT) => if failing.contains (names.getD f.id "") then (.error TargetErr.factory : Except TargetErr TabulationObj) else .ok ⟨f.id⟩
+    match read_from_parser create facs ⟨⟨tgt⟩⟩ with
+    | .ok t => return natJ t.id
+    | .error e => return Json.str (match e with | .unknownTarget => "unknownTarget" | .factory => "factory")
+  | "pair_builder" =>
+    -- Pair_Potentials_From_Tuples_Builder._init_potentials with the form builder underneath: rows {a, b, inst}; the registries know `forms` / `modifiers`; factories of
+    -- the names in `failing` raise a ConfigurationException; a callable is the code of the Multi_Range_Defn list it was made from
+    let forms ← getStrs j "forms"
+    let mods ← getStrs j "modifiers"
+    let failing ← getStrs j "failing"
+    let rows ← (← getArr j "rows").mapM fun r => do
+      return ({ species := ⟨← getStr r "a", ← getStr r "b"⟩, potential_form_instance := ← parseInst (← r.getObjVal? "inst") } : PairRow)
+    let lookupM := fun (_ : PfbSelf) (n : String) => if mods.contains n then some (⟨nodeId n⟩ : ModFactory) else none
+    let lookupF := fun (_ : PfbSelf) (n : String) => if forms.contains n then some (⟨nodeId n⟩ : FormFactory) else none
+    let bad := fun (i : Nat) => failing.any fun n => nodeId n == i
+    let applyM := fun (f : ModFactory) (args : List PInst) (_ : PfbSelf) => if bad f.id then (.error PfbErr.config : Except PfbErr PForm) else .ok ⟨f.id * 10 + args.length⟩
+    let applyF := fun (f : FormFactory) (ps : List Rat) => if bad f.id then (.error PfbErr.config : Except PfbErr PForm) else .ok ⟨f.id * 10 + ps.length⟩
+    let mk := fun (ts : List MRDefn) => (.ok ⟨ts.foldl (fun acc t => acc * 10000000 + defnCode t + 1) 0⟩ : Except PfbErr PotFn)
+    match pair_init_potentials lookupM lookupF applyM applyF mk rows 0 0 with
+    | .ok l => return arrJ (l.map fun p => arrJ [Json.str p.a, Json.str p.b, natJ p.fn.id])
+    | .error e => return Json.str (match e with | .unknownModifier => "unknownModifier" | .unknownForm => "unknownForm" | .problemDefining => "problemDefining")
   | "tab_write" =>
     -- the `write` methods of the tabulation objects; answer: the tokens (or "raised") and the number of chunks the destination-mode twin hands the destination
     let which ← getStr j "which"
